@@ -21,6 +21,9 @@ class _Interrupt(BaseException):
     pass
 
 
+import excflavours
+
+
 class SrcError(Exception):
     pass
 
@@ -43,8 +46,12 @@ def gen_case(rng: random.Random, tier: str, bias: str = ''):
         stop_after = rng.randrange(1, n + 1)
     ch = rng.choice([('random', 0.0), ('random', 0.0), ('sticky', 0.2, 0.0), ('sticky', 0.05, 0.0),
                      ('pct', 2, 200, 0.0), ('pct', 3, 200, 0.0)])
-    return dict(kind=kind, n=n, src=src, maxsize=maxsize, stop_after=stop_after,
+    case = dict(kind=kind, n=n, src=src, maxsize=maxsize, stop_after=stop_after,
                 stop_mode=rng.choice(['close', 'close', 'del', 'throw']), chooser=list(ch), seed=rng.randrange(1 << 30))
+    case['exc_flavour'] = excflavours.of_seed(case['seed'])
+    if kind != 'asyncbuffer' and case['seed'] % 11 == 0:
+        case['stop_after'] = 0       # the iterator is never advanced
+    return case
 
 
 def nontrivial(case, res):
@@ -65,6 +72,8 @@ def run_case(case):
     log = ev.append
     n = case['n']
     st = {'i': 0}
+    # the failure class of this case (see excflavours: also derived from a class the plumbing catches for itself)
+    SrcErr = excflavours.flavoured(SrcError, case.get('exc_flavour'))
 
     def _next():
         if st['i'] < n:
@@ -77,7 +86,7 @@ def run_case(case):
             return None
         log(('srcRaise',))
         if case['src'] == 'exc':
-            raise SrcError('src')
+            raise SrcErr('src')
         raise StopRequested()
 
     class Src:
@@ -103,6 +112,17 @@ def run_case(case):
     def consume_sync(box, out):
         gen = box[0]
         first = True
+        if case['stop_after'] == 0:
+            # the iterator is obtained and given up without ever being advanced (`it = iter(s); it.close()`, an
+            # unused `zip` argument, a probe): stop position 0.  Whatever obtaining it has started must be gone.
+            if case['stop_mode'] in ('close', 'throw'):
+                gen.close()
+            box[0] = None
+            gen = None
+            gc.collect()
+            for _ in range(30):
+                detsched.yield_here('settle')    # helper threads that were told to stop get the time to do so
+            return ('closed',)
         try:
             while True:
                 if not first:
@@ -226,7 +246,7 @@ def run_case(case):
 
 
 def model_lines(cid, case, res):
-    if '+' in case['kind']:
+    if '+' in case['kind'] or case.get('stop_after') == 0:
         return []          # stacked stages: no single-buffer trace; the monitors (output, ending, hang, leak) decide
     src = 'clean' if case['src'] == 'clean' else 'exc'
     lines = [f'case {cid} n={case["n"]} maxsize={case["maxsize"]} src={src}']
